@@ -84,6 +84,12 @@ var c07Bodies = [][2]string{
 	{`{{ try }}{{ range one }}{{ fail() }}{{ end }}{{ catch y }}{{ end }}<{{ . }}>`, "D"},
 	{`{{ try }}{{ include "/failctx.jet" "ctx" }}{{ catch }}<{{ . }}>{{ end }}`, "D"},
 	{`{{ exec("/inc.jet", "ctx") }}`, ""},
+	// a try without a catch clause absorbs a failure raised below a range / if-let / include
+	// with a context: scope and '.' are those of the try's own position again (round 8)
+	{`{{ try }}{{ range one }}{{ y := 1 }}{{ fail() }}{{ end }}{{ end }}<{{ . }}>`, "D"},
+	{`{{ try }}{{ if y := 1; true }}{{ fail() }}{{ end }}{{ end }}<{{ . }}>`, "D"},
+	{`{{ try }}{{ include "/failctx.jet" "ctx" }}{{ end }}<{{ . }}>`, "D"},
+	{`{{ try }}{{ yield lib(y=fail()) "ctx" }}{{ end }}<{{ . }}>`, "D"},
 }
 
 // H_C07_bodies: for each construct with a body: a variable declared in the body (or by
